@@ -14,10 +14,6 @@ var profiles = map[string]*Profile{}
 
 func sprintf(f string, a ...any) string { return fmt.Sprintf(f, a...) }
 
-func (s *Sim) stepUpgrade(st Step) bool           { return false }
-func (s *Sim) stepMkBuiltin(st Step) bool         { return false }
-func (s *Sim) stepBuiltinController(st Step) bool { return false }
-
 func runEngineJob(t *testing.T, job Job) *Partial { return RunJob(t, job) }
 func minimizeEngine(t *testing.T, f Failure, budget time.Duration) *Replay {
 	return Minimize(t, f, budget, os.Getenv("VERIF_ENGINE"))
